@@ -89,9 +89,9 @@ func remoteFn(c vkit.Call) vkit.Reply {
 			// nothing to declare; the answer to a request with credentials may be stored if it says so (RFC 7234, section 3.2)
 			rep.Header["Cache-Control"] = "public, max-age=60"
 		} else if c.Method == "GET" && varyOnLines {
-			rep.Lines = http.Header{"Vary": {"Authorization", "X-Tenant, Cookie", "X-From-Output, X-Values, X-Static-0, X-Attrs", "X-Shift-A, X-Shift-Ab, X-Key-A, X-Key-Ab, X-Doc-Value"}}
+			rep.Lines = http.Header{"Vary": {"Authorization", "X-Tenant, Cookie", "X-From-Output, X-Values, X-Static-0, X-Attrs", "X-Shift-A, X-Shift-Ab, X-Key-A, X-Key-Ab, X-Doc-Value, X-Realm"}}
 		} else if c.Method == "GET" {
-			rep.Header["Vary"] = "X-Tenant, Cookie, X-From-Output, X-Values, X-Static-0, X-Attrs, X-Shift-A, X-Shift-Ab, X-Key-A, X-Key-Ab, X-Doc-Value"
+			rep.Header["Vary"] = "X-Tenant, Cookie, X-From-Output, X-Values, X-Static-0, X-Attrs, X-Shift-A, X-Shift-Ab, X-Key-A, X-Key-Ab, X-Doc-Value, X-Realm"
 		}
 	}
 
@@ -155,7 +155,8 @@ func remoteAnswer(c vkit.Call) vkit.Reply {
 	case strings.HasPrefix(c.Path, "/introspect"):
 		form, _ := url.ParseQuery(string(c.Body))
 		tok := form.Get("token")
-		raw, _ := json.Marshal(map[string]any{"active": !strings.Contains(tok, "revoked"), "sub": "user-of-" + tok, "iss": issuer,
+		// (tokens of this kind are those of the customers' realm: asked about one in another realm, the server does not know it)
+		raw, _ := json.Marshal(map[string]any{"active": !strings.Contains(tok, "revoked") && c.Header.Get("X-Realm") != "staff", "sub": "user-of-" + tok, "iss": issuer,
 			"scope": "read profile", "aud": []string{"api"}, "exp": time.Now().Unix() + 3600})
 
 		return vkit.JSONReply(200, raw)
@@ -451,12 +452,16 @@ func shiftedEndpoints(t *rapid.T, ep map[string]any) (map[string]any, map[string
 	}
 
 	a, b := cp(), cp()
-	what := rapid.SampledFrom([]string{"header name/value", "basic auth user/password", "api key name/value"}).Draw(t, "shiftedEndpointSetting")
+	what := rapid.SampledFrom([]string{"header name/value", "basic auth user/password", "api key name/value", "value of a header named in lower case"}).Draw(t, "shiftedEndpointSetting")
 
 	switch what {
 	case "header name/value":
 		a["headers"].(map[string]any)["X-Shift-A"] = "bc"
 		b["headers"].(map[string]any)["X-Shift-Ab"] = "c"
+	case "value of a header named in lower case":
+		// (not shifted, just different - under a name as it is commonly written in yaml)
+		a["headers"].(map[string]any)["x-realm"] = "customers"
+		b["headers"].(map[string]any)["x-realm"] = "staff"
 	case "basic auth user/password":
 		a["auth"] = map[string]any{"type": "basic_auth", "config": map[string]any{"user": "ab", "password": "c"}}
 		b["auth"] = map[string]any{"type": "basic_auth", "config": map[string]any{"user": "a", "password": "bc"}}
@@ -914,7 +919,7 @@ func genIntrospectionCase(t *rapid.T) caseSpec {
 	tokB := tokA
 
 	refA, refB := config.MechanismConfig{"authenticator": "intro"}, config.MechanismConfig{"authenticator": "intro"}
-	c.Kind = rapid.SampledFrom([]string{"equal", "equal", "credential", "assertions-scope", "assertions-audience", "assertions-issuer"}).Draw(t, "pairKind")
+	c.Kind = rapid.SampledFrom([]string{"equal", "equal", "credential", "assertions-scope", "assertions-audience", "assertions-issuer", "other-realm"}).Draw(t, "pairKind")
 
 	switch c.Kind {
 	case "equal":
@@ -922,6 +927,18 @@ func genIntrospectionCase(t *rapid.T) caseSpec {
 	case "credential":
 		tokB = rapid.SampledFrom([]string{tokA + "x", "revoked-" + tokA}).Draw(t, "tokB")
 		c.Kind, c.Detail = "one-component", "credential"
+	case "other-realm":
+		// a second catalogue entry asks the same endpoint on behalf of another realm, which it names in a header (spelled
+		// in lower case, as is common in yaml)
+		mkEp := func(realm string) map[string]any {
+			return map[string]any{"url": remote.URL() + "/introspect", "headers": map[string]any{"x-realm": realm}}
+		}
+
+		pc["introspection_endpoint"] = mkEp("customers")
+		pc2 := config.MechanismConfig{"introspection_endpoint": mkEp("staff"), "assertions": pc["assertions"], "cache_ttl": "5m"}
+		c.Authn = append(c.Authn, config.Mechanism{ID: "intro2", Type: "oauth2_introspection", Config: pc2})
+		refB = config.MechanismConfig{"authenticator": "intro2"}
+		c.Kind, c.Detail = "cross-variant", "another catalogue entry asking the same endpoint for another realm (header x-realm)"
 	case "assertions-scope":
 		refB["config"] = map[string]any{"assertions": map[string]any{"scopes": []any{"admin"}}}
 		c.Kind, c.Detail = "cross-variant", "rule B requires scope admin which the token lacks"
